@@ -60,8 +60,39 @@ def run_shard(shard, tier, check_one, prop, extra_inputs=None):
             acc.outcomes[f"{R.NAMES[t]}:{out or 'ok'}"] += 1
             acc.n["traces"] += 1
         except core.Violation as v:
-            acc.violation(v.clause, v.sig, {"spec": specs.dump(sp), "opts": opts, "tag": tag}, v.detail)
+            acc.violation(v.clause, v.sig, {"spec": specs.dump(sp), "opts": opts, "tag": tag, "shard": list(shard), "idx": idx, "tier": tier,
+                                            "extra": extra_inputs is not None}, v.detail)
     return acc
+
+
+def replay(w, check_one, extra_inputs=None):
+    """Replay a shape witness: first the input alone on fresh objects; if that does not reproduce, the
+    inputs of its shard in their original order up to and including it (library state that builds up
+    from one input to the next - class-level containers, caches keyed on content - needs the prefix)."""
+    try:
+        check_one(specs.load(w["spec"]), w["opts"], core.Acc(), w.get("tag", ""))
+    except core.Violation as v:
+        return v
+    if "shard" not in w:
+        return None
+    import itertools
+
+    t, i, k = w["shard"]
+    src = gen.family(t, w["tier"])
+    if w.get("extra") and extra_inputs is not None:
+        src = itertools.chain(src, extra_inputs(t, w["tier"]))
+    acc = core.Acc()
+    for idx, (tag, sp, opts) in enumerate(src):
+        if idx % k != i:
+            continue
+        try:
+            check_one(sp, opts, acc, tag)
+        except core.Violation as v:
+            if idx == w["idx"]:
+                return core.Violation(v.clause, v.sig, None, v.detail + " [reproduced with the preceding inputs of its shard]")
+        if idx >= w["idx"]:
+            break
+    return None
 
 
 def viol(prop, sp, clause, tag, detail, extra=""):
